@@ -59,8 +59,12 @@ class C17(Prop):
             t0 = case["test"][0]
             tsteps = sorted(int(e["name"].split("#")[1]) for e in t0["events"] if str(e.get("name", "")).startswith("ProfilerStep#"))
             case["tsel"] = sel(len(case["test"]), len(tsteps), tsteps[0])
+        elif rng.random() < 0.4:
+            case["tsel"] = sel(nr, steps, first)      # the same trace on both sides, other ranks / iterations: not a self comparison
+            case["mode"] += "_othersel"
         else:
             case["tsel"] = case["csel"]
+        case["labels"] = rng.choice(["AB", "AB", "AA"])   # two objects may carry the same label (e.g. a collision of default labels)
         case["dev"] = rng.choice(["CPU", "GPU", "ALL"])
         case["short"] = rng.random() < 0.4
         return case
@@ -69,15 +73,16 @@ class C17(Prop):
         from hta.trace_diff import DeviceType, LabeledTrace, TraceDiff
         obs: Dict[str, Any] = {"prop": "C17", "err": "", "dev": case["dev"], "short": bool(case["short"]), "table": [], "table2": [],
                                "classes": {k: [] for k in ("added", "deleted", "increased", "decreased", "unchanged")},
-                               "hasClasses": False, "self": case["mode"] != "other", "sameObj": case["mode"] == "sameobj"}
+                               "hasClasses": False, "self": case["mode"] in ("self2", "sameobj"), "sameObj": case["mode"].startswith("sameobj")}
+        la, lb = case.get("labels", "AB")
         with hta.CaseDir("c17") as d:
             gen.write_trace_set([gen.RankTrace(**r) for r in case["control"]], d + "/c")
-            lc = LabeledTrace(label="A", trace_dir=d + "/c")
+            lc = LabeledTrace(label=la, trace_dir=d + "/c")
             if case["mode"] == "other":
                 gen.write_trace_set([gen.RankTrace(**r) for r in case["test"]], d + "/t")
-                lt = LabeledTrace(label="B", trace_dir=d + "/t")
-            elif case["mode"] == "self2":
-                lt = LabeledTrace(label="B", trace_dir=d + "/c")
+                lt = LabeledTrace(label=lb, trace_dir=d + "/t")
+            elif case["mode"].startswith("self2"):
+                lt = LabeledTrace(label=lb, trace_dir=d + "/c")
             else:
                 lt = lc
 
@@ -103,11 +108,11 @@ class C17(Prop):
                                          "dc": hta.ival(row["diff_counts"]), "dd": hta.ival(row["diff_duration"]),
                                          "cat": str(row["counts_change_categories"])})
                 # history on the same LabeledTrace objects: ops_diff (always long names), then the comparison in the other name mode
-                lc.label, lt.label = ("A", "B") if lc is not lt else ("A", "A")
+                lc.label, lt.label = (la, lb) if lc is not lt else (la, la)
                 res = TraceDiff.ops_diff(lc, lt, case["csel"][0], case["tsel"][0], case["csel"][1], case["tsel"][1], dev)
                 obs["classes"] = {k: [str(x) for x in v] for k, v in res.items()}
                 obs["hasClasses"] = True
-                lc.label, lt.label = ("A", "B") if lc is not lt else ("A", "A")
+                lc.label, lt.label = (la, lb) if lc is not lt else (la, la)
                 df2 = TraceDiff.compare_traces(lc, lt, case["csel"][0], case["tsel"][0], case["csel"][1], case["tsel"][1], dev, not case["short"])
                 cl, tl = str(df2.columns[0])[:-len("_counts")], str(df2.columns[2])[:-len("_counts")]
                 for name, row in df2.iterrows():
